@@ -30,10 +30,16 @@ impl Drop for AutoDespawnSignalInner
 /// Drains [`AutoDespawner`] and recursively despawns entities that were auto-despawned.
 pub fn garbage_collect_entities(world: &mut World)
 {
+    #[cfg(cobweb_verif)]
+    crate::verif::emit(crate::verif::Event::GcStart);
     while let Some(entity) = world.resource::<AutoDespawner>().try_recv()
     {
+        #[cfg(cobweb_verif)]
+        if world.get_entity(entity).is_ok() { crate::verif::emit(crate::verif::Event::GcDespawn{ ent: entity }); }
         world.get_entity_mut(entity).ok().map(|e| e.despawn_recursive());
     }
+    #[cfg(cobweb_verif)]
+    crate::verif::emit(crate::verif::Event::GcEnd);
 }
 
 //-------------------------------------------------------------------------------------------------------------------
